@@ -97,6 +97,12 @@ var BedTypes = []int{3, 4, 5, 6, 12}
 func genFieldText(t *rapid.T, label string) string {
 	// non-empty, tab/CR/LF-free, trimmed, not starting with '#'
 	for {
+		if kw := genKeyword(t, label); kw != "" {
+			if rapid.Bool().Draw(t, label+"-kw-bare") {
+				return kw
+			}
+			return kw + genText(t, label+"-kwrest", 1, 6, false)
+		}
 		s := genText(t, label, 1, 10, false)
 		if s[0] == '#' {
 			s = "c" + s[1:]
